@@ -166,7 +166,11 @@ class SSHConfig:
             else:
                 path = self._default_path
 
-            paths = list(p for p in path.glob(pattern) if p.is_file())
+            match_hidden = Path(pattern).name.startswith('.')
+
+            paths = sorted(p for p in path.glob(pattern)
+                           if p.is_file() and
+                           (match_hidden or not p.name.startswith('.')))
 
             if not paths:
                 logger.debug1(f'Config pattern "{pattern}" matched no files')
